@@ -53,6 +53,9 @@ struct Bh {
     /// the original handle is polled ready before each clone is taken from it (a clone of a
     /// ready service must not inherit whatever the original's readiness stands for)
     ready_then_clone: bool,
+    /// the layer is applied twice; the other bulkhead (a separate one: its own wrapped service,
+    /// its own slots) has max calls in flight for the whole history
+    busy_sibling: bool,
 }
 
 struct X {
@@ -63,6 +66,9 @@ struct X {
     /// per caller: had an inner call when dropped
     w_release_and_timeout: bool,
     completes_at: Vec<u64>,
+    /// calls in flight in the sibling bulkhead (kept alive, never completed)
+    #[allow(dead_code)]
+    sibling: Vec<std::pin::Pin<Box<dyn std::future::Future<Output = bool>>>>,
 }
 
 fn has_inner(w: &World, c: usize) -> bool {
@@ -124,7 +130,7 @@ impl Scenario for Bh {
         self.prop
     }
     fn label(&self) -> String {
-        format!("bulkhead max={} max_wait={:?} callers={}{}{}", self.max, self.max_wait, self.callers, if self.late_ticks > 0 { " late-polls" } else { "" }, if self.shave_us > 0 { format!(" minus {}us", self.shave_us) } else if self.single_handle { " one-handle".to_string() } else if self.keep_done { " finished-futures-kept".to_string() } else if self.sync_panic_first { " first-inner-call-panics-in-call()".to_string() } else if self.preset_first { " builder_order=small()_preset_first".to_string() } else if self.listeners { " with-listeners".to_string() } else if self.starved_poll { " one-budget-starved-poll".to_string() } else if self.slow_drop { " inner-future-slow-to-drop".to_string() } else if self.ready_then_clone { " clones-of-a-ready-handle".to_string() } else { String::new() })
+        format!("bulkhead max={} max_wait={:?} callers={}{}{}", self.max, self.max_wait, self.callers, if self.late_ticks > 0 { " late-polls" } else { "" }, if self.shave_us > 0 { format!(" minus {}us", self.shave_us) } else if self.single_handle { " one-handle".to_string() } else if self.keep_done { " finished-futures-kept".to_string() } else if self.sync_panic_first { " first-inner-call-panics-in-call()".to_string() } else if self.preset_first { " builder_order=small()_preset_first".to_string() } else if self.listeners { " with-listeners".to_string() } else if self.starved_poll { " one-budget-starved-poll".to_string() } else if self.slow_drop { " inner-future-slow-to-drop".to_string() } else if self.ready_then_clone { " clones-of-a-ready-handle".to_string() } else if self.busy_sibling { " a-second-bulkhead-from-the-same-layer-is-full".to_string() } else { String::new() })
     }
     fn callers(&self) -> usize {
         self.callers
@@ -173,7 +179,25 @@ impl Scenario for Bh {
         } else {
             None
         };
-        X { nest, svc, first_poll_pre: None, w_release_and_timeout: false, completes_at: vec![] }
+        let mut sibling: Vec<std::pin::Pin<Box<dyn std::future::Future<Output = bool>>>> = vec![];
+        if self.busy_sibling {
+            // a second bulkhead made by the same layer value, over a wrapped service of its own
+            // whose calls never complete: it is filled up and stays full
+            let other = trv_core::inner::new_shared(w.origin, trv_core::inner::Mode::Gated);
+            let mut b = layer.layer(GatedInner::new(other.clone()));
+            for i in 0..self.max {
+                drive_ready::<_, Req>(&mut b, 4).expect("sibling ready").ok();
+                let f = b.call(Req::new(900 + i as u32, 0));
+                let mut f: std::pin::Pin<Box<dyn std::future::Future<Output = bool>>> = Box::pin(async move { f.await.is_ok() });
+                w.block_on(futures::future::poll_fn(|cx| {
+                    let _ = f.as_mut().poll(cx);
+                    std::task::Poll::Ready(())
+                }));
+                sibling.push(f);
+            }
+            assert_eq!(other.lock().unwrap().live(), self.max, "the sibling bulkhead did not admit its own calls");
+        }
+        X { nest, svc, first_poll_pre: None, w_release_and_timeout: false, completes_at: vec![], sibling }
     }
     fn arrive(&self, w: &mut World, x: &mut X, c: usize, _v: u8) {
         let nest = x.nest.clone();
@@ -213,6 +237,14 @@ impl Scenario for Bh {
             }
         } else {
             w.starve_next_poll = true;
+        }
+    }
+    fn fingerprint(&self, _w: &World, x: &X) -> String {
+        // (which caller is armed for a nested poll, and who was polled from inside a drop, is
+        // state: the next slow drop and the "handed over" exemption depend on it)
+        match &x.nest {
+            Some(n) => format!("nest {:?}/{:?}", n.armed(), n.fired()),
+            None => String::new(),
         }
     }
     fn before(&self, w: &World, x: &mut X, a: &Action) {
@@ -403,18 +435,18 @@ fn configs(prop: &'static str, tier: Tier) -> Vec<Bh> {
     let mut v = vec![];
     // listeners registered for every event type
     for max_wait in [None, Some(0u64), Some(20)] {
-        v.push(Bh { prop, max: 1, max_wait, callers: 3, max_ticks: tier.pick(3, 4), max_drops: 1, max_panics: 1, late_ticks: 0, shave_us: 0, single_handle: false, grid: 10, keep_done: false, sync_panic_first: false, preset_first: false, listeners: true, starved_poll: false, slow_drop: false, ready_then_clone: false });
+        v.push(Bh { prop, max: 1, max_wait, callers: 3, max_ticks: tier.pick(3, 4), max_drops: 1, max_panics: 1, late_ticks: 0, shave_us: 0, single_handle: false, grid: 10, keep_done: false, sync_panic_first: false, preset_first: false, listeners: true, starved_poll: false, slow_drop: false, ready_then_clone: false, busy_sibling: false });
     }
     // an inner call whose future is slow to drop (a caller polled from inside that drop)
     for max_wait in [None, Some(20u64)] {
-        v.push(Bh { prop, max: 1, max_wait, callers: 3, max_ticks: tier.pick(1, 2), max_drops: 1, max_panics: 0, late_ticks: 0, shave_us: 0, single_handle: false, grid: 10, keep_done: false, sync_panic_first: false, preset_first: false, listeners: false, starved_poll: false, slow_drop: true, ready_then_clone: false });
+        v.push(Bh { prop, max: 1, max_wait, callers: 3, max_ticks: tier.pick(1, 2), max_drops: 1, max_panics: 0, late_ticks: 0, shave_us: 0, single_handle: false, grid: 10, keep_done: false, sync_panic_first: false, preset_first: false, listeners: false, starved_poll: false, slow_drop: true, ready_then_clone: false, busy_sibling: false });
     }
     // one budget-starved poll per history
     for max_wait in [Some(0u64), Some(20)] {
-        v.push(Bh { prop, max: 1, max_wait, callers: 3, max_ticks: tier.pick(3, 4), max_drops: 0, max_panics: 0, late_ticks: 0, shave_us: 0, single_handle: false, grid: 10, keep_done: false, sync_panic_first: false, preset_first: false, listeners: false, starved_poll: true, slow_drop: false, ready_then_clone: false });
+        v.push(Bh { prop, max: 1, max_wait, callers: 3, max_ticks: tier.pick(3, 4), max_drops: 0, max_panics: 0, late_ticks: 0, shave_us: 0, single_handle: false, grid: 10, keep_done: false, sync_panic_first: false, preset_first: false, listeners: false, starved_poll: true, slow_drop: false, ready_then_clone: false, busy_sibling: false });
     }
     // a wait of Duration::MAX (the timer cannot represent the deadline)
-    v.push(Bh { prop, max: 1, max_wait: Some(WAIT_FOR_EVER), callers: 3, max_ticks: tier.pick(2, 3), max_drops: 1, max_panics: 0, late_ticks: 0, shave_us: 0, single_handle: false, grid: 10, keep_done: false, sync_panic_first: false, preset_first: false, listeners: false, starved_poll: false, slow_drop: false, ready_then_clone: false });
+    v.push(Bh { prop, max: 1, max_wait: Some(WAIT_FOR_EVER), callers: 3, max_ticks: tier.pick(2, 3), max_drops: 1, max_panics: 0, late_ticks: 0, shave_us: 0, single_handle: false, grid: 10, keep_done: false, sync_panic_first: false, preset_first: false, listeners: false, starved_poll: false, slow_drop: false, ready_then_clone: false, busy_sibling: false });
     for max in [1usize, 2] {
         for max_wait in [None, Some(0), Some(20), Some(25)] {
             let callers = tier.pick(3, 4).max(max + 1);
@@ -436,48 +468,52 @@ fn configs(prop: &'static str, tier: Tier) -> Vec<Bh> {
                 listeners: false,
                 starved_poll: false,
                 slow_drop: false,
-                ready_then_clone: false,
+                ready_then_clone: false, busy_sibling: false,
             });
         }
     }
     // a wait in the seconds range (2.02 s, explored on a 1.01 s grid): whole seconds plus a
     // sub-second part
-    v.push(Bh { prop, max: 1, max_wait: Some(2020), callers: 3, max_ticks: tier.pick(3, 4), max_drops: 1, max_panics: 0, late_ticks: 0, shave_us: 0, single_handle: false, grid: 1010, keep_done: false, sync_panic_first: false, preset_first: false, listeners: false, starved_poll: false, slow_drop: false, ready_then_clone: false });
+    v.push(Bh { prop, max: 1, max_wait: Some(2020), callers: 3, max_ticks: tier.pick(3, 4), max_drops: 1, max_panics: 0, late_ticks: 0, shave_us: 0, single_handle: false, grid: 1010, keep_done: false, sync_panic_first: false, preset_first: false, listeners: false, starved_poll: false, slow_drop: false, ready_then_clone: false, busy_sibling: false });
     // the builder calls in another order: reject_when_full() first, the wait (or a second
     // reject_when_full()) after it, the limit last - the later call wins
     for max_wait in [Some(0u64), Some(20)] {
-        v.push(Bh { prop, max: 1, max_wait, callers: 3, max_ticks: tier.pick(3, 4), max_drops: 1, max_panics: 0, late_ticks: 0, shave_us: 0, single_handle: false, grid: 10, keep_done: false, sync_panic_first: false, preset_first: true, listeners: false, starved_poll: false, slow_drop: false, ready_then_clone: false });
+        v.push(Bh { prop, max: 1, max_wait, callers: 3, max_ticks: tier.pick(3, 4), max_drops: 1, max_panics: 0, late_ticks: 0, shave_us: 0, single_handle: false, grid: 10, keep_done: false, sync_panic_first: false, preset_first: true, listeners: false, starved_poll: false, slow_drop: false, ready_then_clone: false, busy_sibling: false });
     }
     // the first inner call panics inside call() itself
     for max_wait in [None, Some(20u64)] {
-        v.push(Bh { prop, max: 1, max_wait, callers: 3, max_ticks: tier.pick(2, 3), max_drops: 1, max_panics: 0, late_ticks: 0, shave_us: 0, single_handle: false, grid: 10, keep_done: false, sync_panic_first: true, preset_first: false, listeners: false, starved_poll: false, slow_drop: false, ready_then_clone: false });
+        v.push(Bh { prop, max: 1, max_wait, callers: 3, max_ticks: tier.pick(2, 3), max_drops: 1, max_panics: 0, late_ticks: 0, shave_us: 0, single_handle: false, grid: 10, keep_done: false, sync_panic_first: true, preset_first: false, listeners: false, starved_poll: false, slow_drop: false, ready_then_clone: false, busy_sibling: false });
     }
     // finished futures stay alive until dropped explicitly
     for max_wait in [None, Some(20u64)] {
-        v.push(Bh { prop, max: 1, max_wait, callers: 3, max_ticks: tier.pick(2, 3), max_drops: tier.pick(2, 3), max_panics: 0, late_ticks: 0, shave_us: 0, single_handle: false, grid: 10, keep_done: true, sync_panic_first: false, preset_first: false, listeners: false, starved_poll: false, slow_drop: false, ready_then_clone: false });
+        v.push(Bh { prop, max: 1, max_wait, callers: 3, max_ticks: tier.pick(2, 3), max_drops: tier.pick(2, 3), max_panics: 0, late_ticks: 0, shave_us: 0, single_handle: false, grid: 10, keep_done: true, sync_panic_first: false, preset_first: false, listeners: false, starved_poll: false, slow_drop: false, ready_then_clone: false, busy_sibling: false });
     }
     // all callers through the one original handle (no clone alive between calls)
     for max_wait in [None, Some(20u64)] {
-        v.push(Bh { prop, max: 1, max_wait, callers: 3, max_ticks: tier.pick(3, 4), max_drops: 1, max_panics: 0, late_ticks: 0, shave_us: 0, single_handle: true, grid: 10, keep_done: false, sync_panic_first: false, preset_first: false, listeners: false, starved_poll: false, slow_drop: false, ready_then_clone: false });
+        v.push(Bh { prop, max: 1, max_wait, callers: 3, max_ticks: tier.pick(3, 4), max_drops: 1, max_panics: 0, late_ticks: 0, shave_us: 0, single_handle: true, grid: 10, keep_done: false, sync_panic_first: false, preset_first: false, listeners: false, starved_poll: false, slow_drop: false, ready_then_clone: false, busy_sibling: false });
     }
     // waits with a sub-millisecond part: 0.5 ms and 19.75 ms
     for (max_wait, shave_us) in [(1u64, 500u64), (20, 250)] {
-        v.push(Bh { prop, max: 1, max_wait: Some(max_wait), callers: 3, max_ticks: tier.pick(3, 4), max_drops: 1, max_panics: 0, late_ticks: 0, shave_us, single_handle: false, grid: 10, keep_done: false, sync_panic_first: false, preset_first: false, listeners: false, starved_poll: false, slow_drop: false, ready_then_clone: false });
+        v.push(Bh { prop, max: 1, max_wait: Some(max_wait), callers: 3, max_ticks: tier.pick(3, 4), max_drops: 1, max_panics: 0, late_ticks: 0, shave_us, single_handle: false, grid: 10, keep_done: false, sync_panic_first: false, preset_first: false, listeners: false, starved_poll: false, slow_drop: false, ready_then_clone: false, busy_sibling: false });
     }
     // every caller's handle is a clone taken from the original right after the original was
     // polled ready (only the occupancy bound is judged: a bulkhead that reserves in poll_ready
     // may rightly keep a slot for the original)
     if prop == "C01" {
         for max_wait in [None, Some(0u64), Some(20u64)] {
-            v.push(Bh { prop, max: 1, max_wait, callers: 3, max_ticks: tier.pick(2, 3), max_drops: 1, max_panics: 0, late_ticks: 0, shave_us: 0, single_handle: false, grid: 10, keep_done: false, sync_panic_first: false, preset_first: false, listeners: false, starved_poll: false, slow_drop: false, ready_then_clone: true });
+            v.push(Bh { prop, max: 1, max_wait, callers: 3, max_ticks: tier.pick(2, 3), max_drops: 1, max_panics: 0, late_ticks: 0, shave_us: 0, single_handle: false, grid: 10, keep_done: false, sync_panic_first: false, preset_first: false, listeners: false, starved_poll: false, slow_drop: false, ready_then_clone: true, busy_sibling: false });
         }
+    }
+    // the same layer applied twice: the other bulkhead is full, this one must not notice
+    for max_wait in [None, Some(0u64), Some(20u64)] {
+        v.push(Bh { prop, max: 1, max_wait, callers: 3, max_ticks: tier.pick(2, 3), max_drops: 1, max_panics: 0, late_ticks: 0, shave_us: 0, single_handle: false, grid: 10, keep_done: false, sync_panic_first: false, preset_first: false, listeners: false, starved_poll: false, slow_drop: false, ready_then_clone: false, busy_sibling: true });
     }
     // a late executor: woken callers (permit handed over, wait deadline passed) are polled up to two ticks late
     for (max, max_wait) in [(1usize, Some(20u64)), (1, None), (2, Some(20))] {
         if tier == Tier::Quick && max == 2 {
             continue;
         }
-        v.push(Bh { prop, max, max_wait, callers: 3, max_ticks: tier.pick(4, 5), max_drops: tier.pick(1, 2), max_panics: tier.pick(0, 1), late_ticks: 2, shave_us: 0, single_handle: false, grid: 10, keep_done: false, sync_panic_first: false, preset_first: false, listeners: false, starved_poll: false, slow_drop: false, ready_then_clone: false });
+        v.push(Bh { prop, max, max_wait, callers: 3, max_ticks: tier.pick(4, 5), max_drops: tier.pick(1, 2), max_panics: tier.pick(0, 1), late_ticks: 2, shave_us: 0, single_handle: false, grid: 10, keep_done: false, sync_panic_first: false, preset_first: false, listeners: false, starved_poll: false, slow_drop: false, ready_then_clone: false, busy_sibling: false });
     }
     v
 }
